@@ -19,6 +19,7 @@ import OFV.Proofs.C05Bksf
 import OFV.Proofs.C05BksfNum
 import OFV.Proofs.C05BksfTwo
 import OFV.Proofs.C05BksfTwo2
+import OFV.Properties.C04
 
 namespace OFV.C05
 open OFV OFV.Spec OFV.Model OFV.Model.C05 OFV.Sem OFV.BK OFV.BKT
@@ -536,6 +537,61 @@ theorem tree_equiv_bk (tol : Rat) (htol : tol * tol ≤ 1 / 4) (n : Nat) (A : Mo
       = GV.coeff (applyOp .qubit (bkFermion tol n A) [Spec.C05.enc .bk n s]) [Spec.C05.enc .bk n s'] := by
   rw [tree_exact tol htol n A hA hok' s s', bk_exact tol htol n A hA hok s s']
 
+/-! ### the Bravyi-Kitaev transforms are the Jordan-Wigner transform conjugated by the relabelling `enc` -/
+
+/-- **`bravyi_kitaev(A)` is `jordan_wigner(A)` in relabelled basis states**: `⟨enc s'| bk(A) |enc s⟩ = ⟨s'| jw(A) |s⟩` for
+every FermionOperator on modes `< n`, every `n`, all occupation masks — in particular the two are isospectral and
+expectation values agree.  (Model functions of both library transforms; exact-regime flags of both runs.) -/
+theorem bk_equiv_jw (tol : Rat) (htol : tol * tol ≤ 1 / 4) (n : Nat) (A : Model.Op)
+    (hA : ∀ tc ∈ A, ∀ f ∈ tc.1, f.1 < n ∧ f.2 ≤ 1) (hok : bkFermionOk tol n A = true)
+    (hokJ : Model.C04.jwFermionOk tol A = true) (s s' : Nat) :
+    GV.coeff (applyOp .qubit (bkFermion tol n A) [Spec.C05.enc .bk n s]) [Spec.C05.enc .bk n s']
+      = GV.coeff (applyOp .qubit (Model.C04.jwFermion tol A) [s]) [s'] := by
+  rw [bk_exact tol htol n A hA hok s s',
+    OFV.C04.jw_exact tol htol A (fun tc h f hf => (hA tc h f hf).2) hokJ s s']
+
+/-- the same for `bravyi_kitaev_tree` -/
+theorem tree_equiv_jw (tol : Rat) (htol : tol * tol ≤ 1 / 4) (n : Nat) (A : Model.Op)
+    (hA : ∀ tc ∈ A, ∀ f ∈ tc.1, f.1 < n ∧ f.2 ≤ 1) (hok : bkTreeFermionOk tol n A = true)
+    (hokJ : Model.C04.jwFermionOk tol A = true) (s s' : Nat) :
+    GV.coeff (applyOp .qubit (bkTreeFermion tol n A) [Spec.C05.enc .tree n s]) [Spec.C05.enc .tree n s']
+      = GV.coeff (applyOp .qubit (Model.C04.jwFermion tol A) [s]) [s'] := by
+  rw [tree_exact tol htol n A hA hok s s',
+    OFV.C04.jw_exact tol htol A (fun tc h f hf => (hA tc h f hf).2) hokJ s s']
+
+/-- **`bravyi_kitaev` preserves Hermiticity and is faithful** (on the encoded basis states, which are all `n`-qubit
+basis states): `bk(A)` is Hermitian exactly when `A` is, and `bk(A)`, `bk(B)` agree exactly when `A`, `B` do -/
+theorem bk_hermitian_iff_and_faithful (tol : Rat) (htol : tol * tol ≤ 1 / 4) (n : Nat) (A B : Model.Op)
+    (hA : ∀ tc ∈ A, ∀ f ∈ tc.1, f.1 < n ∧ f.2 ≤ 1) (hB : ∀ tc ∈ B, ∀ f ∈ tc.1, f.1 < n ∧ f.2 ≤ 1)
+    (hokA : bkFermionOk tol n A = true) (hokB : bkFermionOk tol n B = true) :
+    ((∀ s s', GV.coeff (applyOp .qubit (bkFermion tol n A) [Spec.C05.enc .bk n s]) [Spec.C05.enc .bk n s']
+        = (GV.coeff (applyOp .qubit (bkFermion tol n A) [Spec.C05.enc .bk n s']) [Spec.C05.enc .bk n s]).conj)
+      ↔ (∀ s s', GV.coeff (applyOp .fermion A [s]) [s'] = (GV.coeff (applyOp .fermion A [s']) [s]).conj))
+    ∧ ((∀ s s', GV.coeff (applyOp .qubit (bkFermion tol n A) [Spec.C05.enc .bk n s]) [Spec.C05.enc .bk n s']
+        = GV.coeff (applyOp .qubit (bkFermion tol n B) [Spec.C05.enc .bk n s]) [Spec.C05.enc .bk n s'])
+      ↔ (∀ s s', GV.coeff (applyOp .fermion A [s]) [s'] = GV.coeff (applyOp .fermion B [s]) [s'])) := by
+  refine ⟨⟨fun h s s' => ?_, fun h s s' => ?_⟩, ⟨fun h s s' => ?_, fun h s s' => ?_⟩⟩
+  · rw [← bk_exact tol htol n A hA hokA s s', ← bk_exact tol htol n A hA hokA s' s]; exact h s s'
+  · rw [bk_exact tol htol n A hA hokA s s', bk_exact tol htol n A hA hokA s' s]; exact h s s'
+  · rw [← bk_exact tol htol n A hA hokA s s', ← bk_exact tol htol n B hB hokB s s']; exact h s s'
+  · rw [bk_exact tol htol n A hA hokA s s', bk_exact tol htol n B hB hokB s s']; exact h s s'
+
+/-- **linearity** of `bravyi_kitaev` on the encoded states -/
+theorem bk_linear (tol : Rat) (htol : tol * tol ≤ 1 / 4) (n : Nat) (A B : Model.Op) (c : GQ)
+    (hA : ∀ tc ∈ A, ∀ f ∈ tc.1, f.1 < n ∧ f.2 ≤ 1) (hB : ∀ tc ∈ B, ∀ f ∈ tc.1, f.1 < n ∧ f.2 ≤ 1)
+    (hokA : bkFermionOk tol n A = true) (hokB : bkFermionOk tol n B = true)
+    (hadd : Model.C04.iaddOk tol A (smul c B) = true) (hokS : bkFermionOk tol n (iadd tol A (smul c B)) = true)
+    (s s' : Nat) :
+    GV.coeff (applyOp .qubit (bkFermion tol n (iadd tol A (smul c B))) [Spec.C05.enc .bk n s]) [Spec.C05.enc .bk n s']
+      = GV.coeff (applyOp .qubit (bkFermion tol n A) [Spec.C05.enc .bk n s]) [Spec.C05.enc .bk n s']
+        + c * GV.coeff (applyOp .qubit (bkFermion tol n B) [Spec.C05.enc .bk n s]) [Spec.C05.enc .bk n s'] := by
+  have hS : ∀ tc ∈ iadd tol A (smul c B), ∀ f ∈ tc.1, f.1 < n ∧ f.2 ≤ 1 :=
+    Jel.iadd_keys (P := fun t => ∀ f ∈ t, f.1 < n ∧ f.2 ≤ 1) tol hA
+      (Jel.smul_keys (P := fun t => ∀ f ∈ t, f.1 < n ∧ f.2 ≤ 1) c hB)
+  rw [bk_exact tol htol n _ hS hokS s s', bk_exact tol htol n A hA hokA s s', bk_exact tol htol n B hB hokB s s']
+  change den .fermion _ _ _ = den .fermion _ _ _ + c * den .fermion _ _ _
+  rw [den_iadd .fermion tol _ _ _ _ hadd, Sem.den_smul]
+
 /-! ### Bravyi-Kitaev superfast (`bksf.py`): the edge operators satisfy the edge algebra, for every graph
 
 `E` is `edge_matrix_indices` as the list of its columns (qubit `e` on edge `e`); `edgeB tol E i` and
@@ -808,6 +864,18 @@ example :
   intro E
   refine ⟨by decide +kernel, by decide +kernel, by decide +kernel, by decide +kernel, by decide +kernel⟩
 
+/-- the hypotheses of `bk_equiv_jw` / `tree_equiv_jw` / `bk_linear` on concrete operators, `n = 6` -/
+example :
+    let A : Model.Op := [([(4, 1), (1, 0)], ⟨2, 0⟩), ([(1, 0), (4, 1)], ⟨-(mkRat 1 2), 0⟩), ([(5, 1)], ⟨0, 1⟩)]
+    let B : Model.Op := [([(4, 1), (1, 0)], ⟨0, 1⟩), ([(3, 1), (3, 0)], ⟨mkRat 3 4, 0⟩)]
+    bkFermionOk Generated.eqTolerance 6 A = true ∧ bkTreeFermionOk Generated.eqTolerance 6 A = true
+    ∧ Model.C04.jwFermionOk Generated.eqTolerance A = true ∧ bkFermionOk Generated.eqTolerance 6 B = true
+    ∧ Model.C04.iaddOk Generated.eqTolerance A (smul ⟨0, 2⟩ B) = true
+    ∧ bkFermionOk Generated.eqTolerance 6 (iadd Generated.eqTolerance A (smul ⟨0, 2⟩ B)) = true := by
+  intro A B
+  refine ⟨by decide +kernel, by decide +kernel, by decide +kernel, by decide +kernel, by decide +kernel,
+    by decide +kernel⟩
+
 example : ∀ m ∈ [11, 0, 3, 11, 4], m / 2 < 6 := by decide
 
 /-- the exact-regime hypothesis of `tree_exact` on a concrete operator, `n = 6` (tree ≠ Fenwick there) -/
@@ -826,7 +894,7 @@ example : bkTreeFermionOk Generated.eqTolerance 6
   F05-bksf-complex-coefficients, F05-bksf-missing-edge), the fermionic
   identities expressing a†a-monomials by Majorana edge operators, `vacuum_operator` (networkx cycle basis; no Model),
   and the isomorphism of the stabiliser subspace with the even-parity Fock space.
-* isospectrality with Jordan-Wigner / preservation of expectation values as separate statements (they follow from
-  `bk_exact` + `bk_enc_injective`: the transformed operator is the Jordan-Wigner one conjugated by the relabelling). -/
+* multiplicativity of `bravyi_kitaev` as a separate statement (it follows from `bk_equiv_jw` + `C04.jw_multiplicative` on
+  the encoded states; not restated). -/
 
 end OFV.C05
